@@ -784,11 +784,15 @@ func (s *msim) move(x *mside, n int) {
 	if len(b) == 0 {
 		return
 	}
-	s.obs(" moved %d", len(b))
-	s.tapFeed(x, b)
+	// observations are taken at packet level, not byte level: how many pongs
+	// answer a burst of pings is decided inside the connection (the pong
+	// channel has capacity 1), message packets and pings are not
+	before := s.tapPayload
+	pings := s.tapFeed(x, b)
 	if s.stop {
 		return
 	}
+	s.obs(" moved payload=%d pings=%d", s.tapPayload-before, pings)
 	if y.closed || y.stopped {
 		return // nobody reads any more
 	}
@@ -848,7 +852,6 @@ func (s *msim) observeE2E() {
 	for _, x := range s.sides {
 		s.pongDeadline(x)
 	}
-	s.obs("pend %d/%d", pipe.Pending(0), pipe.Pending(1))
 }
 
 func (s *msim) busySends() int {
